@@ -81,7 +81,8 @@ Print Assumptions css_relex_idempotent.
    Every token type has its constructors, each proved by a maximal-munch lemma: whitespace; colon, semicolon,
    comma, brackets, the five match operators, column, CDO, CDC; comments (closed, or cut by the end of input);
    identifiers, custom-property names, functions, at-keywords, hashes and dimension units with escapes (esc_text:
-   backslash + non-hex byte, backslash + UTF-8 sequence, backslash + 1..6 hex digits + one optional whitespace byte,
+   backslash + non-hex byte, backslash + UTF-8 sequence, backslash + 1..6 hex digits + one optional whitespace (one
+   byte, or CR LF; a lone CR must not be followed by LF),
    each with the follower it tolerates: fewer than six hex digits must not be followed by a hex digit, and no hex
    escape without its whitespace by whitespace); numbers, percentages and dimensions including the back-off of a
    '.' or 'e' that cannot continue the number; strings and bad strings with escapes and line continuations, and
